@@ -221,6 +221,7 @@ func checkC11(c *Ctx) {
 		}
 	}
 	flowC11(c)
+	c11TextE1(c)
 }
 
 func tryCall(in *absint.Interp, cell *absint.Cell, T interface{ String() string }, name string, args ...absint.Value) (res []absint.Value, err error) {
